@@ -906,6 +906,183 @@ fn c14_vlog_writer_after_restore(dir: PathBuf) -> ScenFut<'static> {
     })
 }
 
+/// (relative path, length, content hash) of every file below `dir`.
+fn dir_digest(dir: &std::path::Path) -> Vec<(String, u64, u64)> {
+    fn walk(base: &std::path::Path, d: &std::path::Path, out: &mut Vec<(String, u64, u64)>) {
+        let Ok(rd) = std::fs::read_dir(d) else { return };
+        for e in rd.flatten() {
+            let p = e.path();
+            if p.is_dir() {
+                walk(base, &p, out);
+            } else if let Ok(b) = std::fs::read(&p) {
+                let mut h = 0xcbf2_9ce4_8422_2325u64;
+                for x in &b {
+                    h = (h ^ *x as u64).wrapping_mul(0x0000_0100_0000_01b3);
+                }
+                out.push((p.strip_prefix(base).unwrap_or(&p).to_string_lossy().to_string(), b.len() as u64, h));
+            }
+        }
+    }
+    let mut out = vec![];
+    walk(dir, dir, &mut out);
+    out.sort();
+    out
+}
+
+/// A checkpoint is a database of its own: while the source keeps committing and flushing, the
+/// checkpoint directory does not change, and a store opened on (a second copy of) the checkpoint
+/// and the source do not see each other's writes - whatever the two do in which order.
+fn c14_checkpoint_independent_of_source(dir: PathBuf) -> ScenFut<'static> {
+    Box::pin(async move {
+        use std::collections::BTreeMap;
+        type M = BTreeMap<Vec<u8>, Vec<u8>>;
+        async fn verify(t: &Tree, m: &M, nkeys: u64, who: &str, when: &str) -> Result<(), String> {
+            for i in 0..nkeys {
+                let k = format!("k{i}").into_bytes();
+                let got = fresh_get(t, &k).await.map_err(|e| format!("{who}, {when}: get(k{i}) failed: {e}"))?;
+                if got.as_ref() != m.get(&k) {
+                    let show = |v: Option<&Vec<u8>>| v.map(|v| format!("{}.. ({} bytes)", String::from_utf8_lossy(&v[..v.len().min(24)]), v.len()));
+                    return Err(format!("{who}, {when}: get(k{i}) = {:?}, its own history says {:?}", show(got.as_ref()), show(m.get(&k))));
+                }
+            }
+            Ok(())
+        }
+        for seed in 0..24u64 {
+            let mut r = crate::rng::Rng::new(0xC14C ^ seed);
+            let d = dir.join(format!("s{seed}"));
+            let cfg = Cfg {
+                vlog: seed % 4 != 3,
+                vlog_threshold: 64,
+                vlog_max_file: *r.pick(&[1024, 1 << 20]),
+                cache: *r.pick(&[0, 1 << 20]),
+                flush_on_close: r.chance(1, 2),
+                level_count: 3,
+                l0_max_files: 4,
+                ..base_cfg()
+            };
+            let what = format!("options: value log {}, value-log file size {}, flush on close {}", if cfg.vlog { "on" } else { "off" }, cfg.vlog_max_file, cfg.flush_on_close);
+            let nkeys = 6u64;
+            let src = cfg.open(&d.join("src")).map_err(|e| e.to_string())?;
+            let mut m_src: M = BTreeMap::new();
+            let mut n = 0u64;
+            let mut write = |r: &mut crate::rng::Rng, tag: &str, m: &mut M| -> Vec<(Vec<u8>, Vec<u8>)> {
+                let mut out = vec![];
+                for _ in 0..r.range(1, 2) {
+                    n += 1;
+                    let k = format!("k{}", r.below(nkeys)).into_bytes();
+                    let len = if r.chance(3, 4) { r.range(100, 600) as usize } else { r.range(1, 40) as usize };
+                    let mut v = format!("{tag}-{n}-").into_bytes();
+                    v.resize(v.len() + len, b'a' + (n % 26) as u8);
+                    m.insert(k.clone(), v.clone());
+                    out.push((k, v));
+                }
+                out
+            };
+            for _ in 0..r.range(3, 8) {
+                let kv = write(&mut r, "before", &mut m_src);
+                let refs: Vec<(&[u8], &[u8])> = kv.iter().map(|(k, v)| (&k[..], &v[..])).collect();
+                put(&src, &refs).await?;
+                if r.chance(1, 2) {
+                    src.verif_flush().map_err(|e| e.to_string())?;
+                }
+            }
+            let (ck_a, ck_b) = (d.join("ckA"), d.join("ckB"));
+            src.create_checkpoint(&ck_a).map_err(|e| format!("create_checkpoint: {e}"))?;
+            src.create_checkpoint(&ck_b).map_err(|e| format!("create_checkpoint: {e}"))?;
+            let digest_a = dir_digest(&ck_a);
+            let m_ck = m_src.clone();
+            let other = cfg.open(&ck_b).map_err(|e| format!("{what}: the checkpoint directory does not open as a database: {e}"))?;
+            let mut m_other = m_ck.clone();
+            verify(&other, &m_other, nkeys, "store opened on the checkpoint", "right after opening").await.map_err(|e| format!("{what}: {e}"))?;
+            let mut order = vec![];
+            for round in 0..r.range(6, 12) {
+                let on_src = r.chance(1, 2);
+                let (t, m, tag) = if on_src { (&src, &mut m_src, "source") } else { (&other, &mut m_other, "ckpt") };
+                let kv = write(&mut r, tag, m);
+                let refs: Vec<(&[u8], &[u8])> = kv.iter().map(|(k, v)| (&k[..], &v[..])).collect();
+                put(t, &refs).await?;
+                let flushed = r.chance(2, 3);
+                if flushed {
+                    t.verif_flush().map_err(|e| e.to_string())?;
+                }
+                order.push(format!("{}{}", if on_src { "S" } else { "C" }, if flushed { "f" } else { "" }));
+                let when = format!("after round {round} (S = source commits, C = checkpoint store commits, f = flushed: {})", order.join(" "));
+                verify(&src, &m_src, nkeys, "source", &when).await.map_err(|e| format!("{what}: {e}"))?;
+                verify(&other, &m_other, nkeys, "store opened on the checkpoint", &when).await.map_err(|e| format!("{what}: {e}"))?;
+                let now = dir_digest(&ck_a);
+                if now != digest_a {
+                    let changed: Vec<String> = now.iter().filter(|x| !digest_a.contains(x)).map(|x| format!("{} now {} bytes", x.0, x.1)).chain(digest_a.iter().filter(|x| !now.iter().any(|y| y.0 == x.0)).map(|x| format!("{} gone", x.0))).take(4).collect();
+                    return Err(format!("{what}: files of a checkpoint directory changed while the source went on ({when}): {}", changed.join(", ")));
+                }
+            }
+            close(other).await;
+            let other = cfg.open(&ck_b).map_err(|e| format!("{what}: reopen of the store on the checkpoint: {e}"))?;
+            verify(&other, &m_other, nkeys, "store opened on the checkpoint", "after its close and reopen").await.map_err(|e| format!("{what}: {e}"))?;
+            close(other).await;
+            src.restore_from_checkpoint(&ck_a).map_err(|e| format!("restore: {e}"))?;
+            let mut m_src = m_ck.clone();
+            verify(&src, &m_src, nkeys, "source", "after restoring the untouched checkpoint").await.map_err(|e| format!("{what}: {e}"))?;
+            let kv = write(&mut r, "after-restore", &mut m_src);
+            let refs: Vec<(&[u8], &[u8])> = kv.iter().map(|(k, v)| (&k[..], &v[..])).collect();
+            put(&src, &refs).await?;
+            src.verif_flush().map_err(|e| e.to_string())?;
+            close(src).await;
+            let src = cfg.open(&d.join("src")).map_err(|e| format!("{what}: reopen of the source after restore: {e}"))?;
+            verify(&src, &m_src, nkeys, "source", "after restore, one more commit, close and reopen").await.map_err(|e| format!("{what}: {e}"))?;
+            close(src).await;
+            let _ = std::fs::remove_dir_all(&d);
+        }
+        Ok(())
+    })
+}
+
+/// A second checkpoint into a directory that already holds one (a "latest" backup directory).
+fn c14_checkpoint_into_existing_directory(dir: PathBuf) -> ScenFut<'static> {
+    Box::pin(async move {
+        for vlog in [false, true] {
+            let d = dir.join(if vlog { "vlog" } else { "plain" });
+            let cfg = Cfg { cache: 0, vlog, vlog_threshold: 64, level_count: 3, l0_max_files: 4, max_bytes_for_level: 1 << 20, ..base_cfg() };
+            let t = cfg.open(&d.join("src")).map_err(|e| e.to_string())?;
+            let ck = d.join("latest");
+            let big = vec![b'x'; 300];
+            put(&t, &[(b"a", b"1"), (b"big", &big[..])]).await?;
+            t.create_checkpoint(&ck).map_err(|e| format!("first create_checkpoint: {e}"))?;
+            put(&t, &[(b"b", b"2")]).await?;
+            let second = t.create_checkpoint(&ck).map_err(|e| e.to_string());
+            let what = format!("value log {}: {{a, big}} committed, checkpoint into `latest`, {{b}} committed, second checkpoint into the same directory ({})", if vlog { "on" } else { "off" }, match &second { Ok(_) => "returned Ok".to_string(), Err(e) => format!("refused: {e}") });
+            // the source is intact whatever the second call answered
+            let expect = |a: Option<Vec<u8>>, bg: Option<Vec<u8>>, b: Option<Vec<u8>>, who: &str, want_b: bool| -> Result<(), String> {
+                if a.as_deref() != Some(&b"1"[..]) || bg.as_deref() != Some(&big[..]) || (b.as_deref() == Some(&b"2"[..])) != want_b {
+                    return Err(format!("{what}; {who}: a = {:?}, big intact: {}, b present: {} (expected a = 1, big intact, b {})", a.map(|v| String::from_utf8_lossy(&v).to_string()), bg.as_deref() == Some(&big[..]), b.is_some(), if want_b { "present" } else { "absent" }));
+                }
+                Ok(())
+            };
+            let r = (fresh_get(&t, b"a").await, fresh_get(&t, b"big").await, fresh_get(&t, b"b").await);
+            close(t).await;
+            match r {
+                (Ok(a), Ok(bg), Ok(b)) => expect(a, bg, b, "source right afterwards", true)?,
+                (a, bg, b) => return Err(format!("{what}; reads of the source fail: {:?} {:?} {:?}", a.err(), bg.err(), b.err())),
+            }
+            let t = cfg.open(&d.join("src")).map_err(|e| format!("{what}; the source does not reopen: {e}"))?;
+            let r = (fresh_get(&t, b"a").await, fresh_get(&t, b"big").await, fresh_get(&t, b"b").await);
+            close(t).await;
+            match r {
+                (Ok(a), Ok(bg), Ok(b)) => expect(a, bg, b, "source after reopen", true)?,
+                (a, bg, b) => return Err(format!("{what}; reads of the reopened source fail: {:?} {:?} {:?}", a.err(), bg.err(), b.err())),
+            }
+            // the directory holds a checkpoint: the second one if the call succeeded, else the first
+            let t = cfg.open(&ck).map_err(|e| format!("{what}; the checkpoint directory does not open as a database: {e}"))?;
+            let r = (fresh_get(&t, b"a").await, fresh_get(&t, b"big").await, fresh_get(&t, b"b").await);
+            close(t).await;
+            match r {
+                (Ok(a), Ok(bg), Ok(b)) => expect(a, bg, b, "checkpoint directory opened as a database", second.is_ok())?,
+                (a, bg, b) => return Err(format!("{what}; reads of the opened checkpoint fail: {:?} {:?} {:?}", a.err(), bg.err(), b.err())),
+            }
+        }
+        Ok(())
+    })
+}
+
 fn c14_version_index_not_restored(dir: PathBuf) -> ScenFut<'static> {
     Box::pin(async move {
         let cfg = ver_cfg(true);
@@ -1296,6 +1473,92 @@ fn c01_compaction_paused(dir: PathBuf) -> ScenFut<'static> {
                             ));
                         }
                     }
+                }
+                Ok(())
+            })
+        })
+        .join()
+        .map_err(|_| "scenario thread panicked".to_string())?;
+        res
+    })
+}
+
+/// A reader building the view of a range cursor (locks: immutable memtables, then manifest) and
+/// a flush installing its table (locks: manifest, then immutable memtables), each parked between
+/// its two locks.
+fn c17_cursor_view_vs_flush_install(dir: PathBuf) -> ScenFut<'static> {
+    Box::pin(async move {
+        let res = std::thread::spawn(move || -> Result<(), String> {
+            let rt = tokio::runtime::Builder::new_multi_thread().worker_threads(4).enable_all().build().map_err(|e| e.to_string())?;
+            rt.block_on(async move {
+                let cfg = Cfg { level_count: 3, l0_max_files: 8, max_bytes_for_level: 1 << 20, ..base_cfg() };
+                let t = std::sync::Arc::new(cfg.open(&dir).map_err(|e| e.to_string())?);
+                put(&t, &[(b"k", b"v1")]).await?;
+                t.verif_rotate().map_err(|e| e.to_string())?;
+                put(&t, &[(b"j", b"w1")]).await?;
+                let ctl = crate::e3::ctl();
+                ctl.reset();
+                let g_reader = ctl.arm_gate("iter.state.after_immutables");
+                let g_flush = ctl.arm_gate("flush.install.after_manifest_lock");
+                let (done_tx, done_rx) = std::sync::mpsc::channel::<(&'static str, Result<usize, String>)>();
+                let (tr, txr) = (t.clone(), done_tx.clone());
+                let reader = std::thread::spawn(move || {
+                    let r = (|| -> Result<usize, String> {
+                        let tx = tr.begin_with_mode(Mode::ReadOnly).map_err(|e| e.to_string())?;
+                        let mut it = tx.range(&b"a"[..], &b"z"[..]).map_err(|e| e.to_string())?;
+                        Ok(collect_fwd(&mut it)?.len())
+                    })();
+                    let _ = txr.send(("reader", r));
+                });
+                if !g_reader.wait_parked(5000) {
+                    g_reader.release();
+                    g_flush.release();
+                    ctl.reset();
+                    return Err("harness: the reader did not reach iter.state.after_immutables".into());
+                }
+                let (tf, txf) = (t.clone(), done_tx.clone());
+                let h = tokio::runtime::Handle::current();
+                let flusher = std::thread::spawn(move || {
+                    let _g = h.enter();
+                    let r = tf.verif_flush_one().map(|_| 0usize).map_err(|e| e.to_string());
+                    let _ = txf.send(("flush", r));
+                });
+                // the flush either parks with the manifest lock held, or (reader holding no lock
+                // the flush needs first) runs through
+                let flush_parked = g_flush.wait_parked(3000);
+                g_reader.release();
+                std::thread::sleep(std::time::Duration::from_millis(50));
+                g_flush.release();
+                let mut got = vec![];
+                for _ in 0..2 {
+                    match done_rx.recv_timeout(std::time::Duration::from_secs(20)) {
+                        Ok(x) => got.push(x),
+                        Err(_) => break,
+                    }
+                }
+                ctl.reset();
+                if got.len() < 2 {
+                    // both threads are stuck inside the store for good; the process is ended by the caller's verdict
+                    let finished: Vec<&str> = got.iter().map(|g| g.0).collect();
+                    std::mem::forget(reader);
+                    std::mem::forget(flusher);
+                    return Err(format!(
+                        "a reader creating a range cursor was paused after taking the immutable-memtable lock, a flush was {} after taking the manifest lock, both were resumed: 20 s later {} - each holds the lock the other one needs (the flush never installs its table; commits then stall and close() waits for the flush)",
+                        if flush_parked { "paused" } else { "started" },
+                        if finished.is_empty() { "neither has returned".to_string() } else { format!("only {:?} has returned", finished) }
+                    ));
+                }
+                let _ = reader.join();
+                let _ = flusher.join();
+                for (who, r) in got {
+                    match r {
+                        Ok(n) if who == "reader" && n != 2 => return Err(format!("reader's scan returned {n} keys, expected 2")),
+                        Err(e) => return Err(format!("{who} failed: {e}")),
+                        _ => {}
+                    }
+                }
+                if let Ok(t) = std::sync::Arc::try_unwrap(t) {
+                    close(t).await;
                 }
                 Ok(())
             })
@@ -2060,6 +2323,12 @@ pub fn all() -> Vec<Scenario> {
             run: c12_torn_tail_behind_compression_header,
         },
         Scenario {
+            id: "C17-cursor-view-vs-flush-install",
+            property: "C17",
+            title: "reader between the two locks of its cursor view while a flush sits between the two locks of its table installation",
+            run: c17_cursor_view_vs_flush_install,
+        },
+        Scenario {
             id: "C17-stall-signal-at-yield-point",
             property: "C17",
             title: "the stall-cleared (or shutdown) signal lands between a stalled writer's check and its wait",
@@ -2112,6 +2381,18 @@ pub fn all() -> Vec<Scenario> {
             property: "C14",
             title: "restore, then a new table reuses the id of a cached table of the discarded timeline",
             run: c14_stale_block_cache_after_restore,
+        },
+        Scenario {
+            id: "C14-checkpoint-independent-of-source",
+            property: "C14",
+            title: "source and a store opened on the checkpoint both commit and flush, in generated orders; a second checkpoint directory is watched for changes and restored at the end",
+            run: c14_checkpoint_independent_of_source,
+        },
+        Scenario {
+            id: "C14-checkpoint-into-existing-directory",
+            property: "C14",
+            title: "second create_checkpoint into the directory of an earlier checkpoint",
+            run: c14_checkpoint_into_existing_directory,
         },
         Scenario {
             id: "C14-vlog-writer-after-restore",
@@ -2257,6 +2538,31 @@ pub fn all() -> Vec<Scenario> {
     ]
 }
 
+const SCENARIO_WATCHDOG_S: u64 = 150;
+
+/// None: the watchdog fired.
+fn run_with_watchdog(s: &Scenario, dir: PathBuf) -> Option<Result<(), String>> {
+    let (tx, rx) = std::sync::mpsc::channel();
+    let f = s.run;
+    let spawned = std::thread::Builder::new().name(format!("scen-{}", s.id)).stack_size(32 << 20).spawn(move || {
+        let rt = tokio::runtime::Builder::new_current_thread().enable_all().build().unwrap();
+        let res = rt.block_on(f(dir));
+        drop(rt);
+        let _ = tx.send(res);
+    });
+    if let Err(e) = spawned {
+        return Some(Err(format!("harness: cannot spawn the scenario thread: {e}")));
+    }
+    match rx.recv_timeout(std::time::Duration::from_secs(SCENARIO_WATCHDOG_S)) {
+        Ok(r) => Some(r),
+        Err(std::sync::mpsc::RecvTimeoutError::Timeout) => None,
+        Err(std::sync::mpsc::RecvTimeoutError::Disconnected) => {
+            let p = crate::panics::drain_all();
+            Some(Err(format!("the scenario's thread panicked: {}", p.join(" | "))))
+        }
+    }
+}
+
 /// Runs the directed scenarios of one property. Open findings that still fail are printed
 /// as KNOWN-FINDING; anything else that fails is a VIOLATION. Returns ids of the scenarios
 /// that failed and are open (generators use them as masks).
@@ -2268,11 +2574,33 @@ pub fn run_for(run: &mut Run, property: &str) -> Vec<String> {
     crate::panics::install();
     for s in all().into_iter().filter(|s| s.property == property) {
         let dir = e1::scratch_root().join(format!("scen-{}", s.id));
-        let _ = std::fs::remove_dir_all(&dir);
-        let rt = tokio::runtime::Builder::new_current_thread().enable_all().build().unwrap();
-        let res = rt.block_on((s.run)(dir.clone()));
-        drop(rt);
-        let _ = std::fs::remove_dir_all(&dir);
+        // Every scenario is a bounded workload of milliseconds to a few seconds. It runs on a
+        // thread of its own under a generous wall-clock watchdog; if the watchdog fires the
+        // scenario is run a second time (a loaded machine), and only a second firing counts.
+        let mut res = None;
+        for attempt in 0..2 {
+            let d = if attempt == 0 { dir.clone() } else { dir.with_extension("again") };
+            let _ = std::fs::remove_dir_all(&d);
+            res = run_with_watchdog(&s, d.clone());
+            if res.is_some() {
+                let _ = std::fs::remove_dir_all(&d);
+                break;
+            }
+        }
+        let Some(res) = res else {
+            let what = format!("directed scenario {} ({}) did not finish within {} s, twice: a call into the store never returned", s.id, s.title, SCENARIO_WATCHDOG_S);
+            results.push(json!({"scenario": s.id, "title": s.title, "holds": false, "detail": what}));
+            run.cov("directed_scenarios", json!(results));
+            // termination is what C15 ("keeps accepting transactions"), C16 ("never hangs") and
+            // C17 ("every commit returns") state; for the other properties a hang decides nothing
+            if matches!(property, "C15" | "C16" | "C17") {
+                run.violation(&what, json!({"engine": "scenario", "scenario": s.id, "hang": true}));
+            } else {
+                run.inconclusive(&what);
+                println!("INCONCLUSIVE property={} {}", property, what);
+            }
+            run.abort_now(results.len() as u64, "aborted: a directed scenario hung inside the store; threads stuck in the store cannot be taken back, nothing further was run");
+        };
         results.push(json!({"scenario": s.id, "title": s.title, "holds": res.is_ok(), "detail": res.clone().err()}));
         if let Err(what) = res {
             if finding_open(&findings, s.id) {
